@@ -226,8 +226,8 @@ CLAIMED.update({
          'unlisted ILIs are unchanged and new rows appear only for listed ids that were absent; loading the same index again '
          'is the identity on the database; statuses only grow by those of the file. Holds for ilis tables with distinct ids '
          '(ilis_ok, preserved by add_ili and shown on a model-built database). File recognition (is_ili, header variants) is '
-         'proved with C07\'s project model; "synsets keep pointing to the same ILI" follows from the first theorem (the synsets '
-         'table is untouched and ILI rowids are kept).',
+         'proved with C07\'s project model. The synsets table, proposed ILIs and every content table are unchanged, and every ILI '
+         'row a synset points to keeps its rowid, id and metadata (synset_keeps_ili).',
          ADD_TRUST, 'DESIGN.md section 5 C19, Appendix E'),
 })
 
